@@ -81,6 +81,9 @@ pub struct GenCfg {
     /// percent: soft solvables are picked among "interesting" ones (excluded, locked out, unknown...)
     pub p_softbias: u64,
     pub maxroot: u64,
+    /// percent per package: favored / locked / hint entries that name a solvable which is NOT a
+    /// candidate of that package (legal for the types, hostile for the solver)
+    pub p_foreign: u64,
     /// layered: requirements only point to later packages (acyclic, deeper searches)
     pub layered: bool,
 }
@@ -91,7 +94,7 @@ impl GenCfg {
             npkg: 6, maxver: 4, maxreq: 3, p_con: 30, p_union: 15, p_unknown: 5, p_excl: 10,
             p_lock: 8, p_fav: 15, p_missing: 20, hints: 0, nsoft: 0, p_rootcon: 30, p_self: 0,
             p_dup: 0, p_extset: 10, p_empty: 8, p_rank: 20, p_softbias: 0, maxroot: 3,
-            layered: false,
+            p_foreign: 0, layered: false,
         }
     }
     pub fn medium() -> Self {
@@ -129,7 +132,7 @@ impl GenCfg {
             npkg: 6, maxver: 4, maxreq: 3, p_con: 35, p_union: 20, p_unknown: 8, p_excl: 15,
             p_lock: 10, p_fav: 15, p_missing: 20, hints: 1, nsoft: 4, p_rootcon: 30, p_self: 12,
             p_dup: 10, p_extset: 15, p_empty: 8, p_rank: 25, p_softbias: 50, maxroot: 3,
-            layered: false,
+            p_foreign: 6, layered: false,
         }
     }
     pub fn with_hints(mut self, h: u64) -> Self {
@@ -265,6 +268,18 @@ pub fn generate(r: &mut Rng, c: &GenCfg) -> (Universe, Prob) {
                 u.solvs[s as usize].rank = r.below(1000) as u32;
             }
         }
+        if r.chance(c.p_foreign, 100) {
+            let foreign = r.below(nsolv as u64) as u32;
+            match r.below(3) {
+                0 => u.pkgs[pi].favored = Some(foreign),
+                1 => u.pkgs[pi].locked = Some(foreign),
+                _ => {
+                    let mut h: Vec<u32> = cands.iter().copied().filter(|_| r.chance(1, 2)).collect();
+                    h.push(foreign);
+                    u.pkgs[pi].hint = Hint::Some(h);
+                }
+            }
+        }
     }
     let mut p = Prob::default();
     let nroot = 1 + r.below(c.maxroot);
@@ -292,6 +307,22 @@ pub fn generate(r: &mut Rng, c: &GenCfg) -> (Universe, Prob) {
         let pi = r.below(all_names.len() as u64) as usize;
         let v = vs_on(&mut u, r, pi);
         p.cons.push(v);
+    }
+    // degenerate problems: a requirement listed twice, a constraint on the version set of a
+    // requirement, no requirements at all
+    if c.p_dup > 0 {
+        if r.chance(c.p_dup, 100) {
+            let q = *r.pick(&p.reqs);
+            p.reqs.push(q);
+        }
+        if r.chance(c.p_dup / 2, 100) {
+            if let Req::Single(v) = p.reqs[0] {
+                p.cons.push(v);
+            }
+        }
+        if r.chance(2, 100) {
+            p.reqs.clear();
+        }
     }
     u.finalize();
     let ns = r.below(c.nsoft + 1);
